@@ -29,6 +29,13 @@ Status(r) ==
   ELSE IF r.sim \notin {"absent", "exactflags", "exactlines", "anypointer", "anyvalue"} THEN 400
   ELSE 200
 Augments(r) == r.augment \in {"absent", "1"}
+(* the similarity level a request asks for (the default is the one of the command), and what it
+   means for two goroutines that are identical but for the thread-lock flag: only ExactFlags keeps
+   them apart (C05 on the handler's pages)                                                        *)
+LevelOf(r) == CASE r.sim = "exactflags" -> "ExactFlags" [] r.sim = "exactlines" -> "ExactLines"
+                [] r.sim \in {"absent", "anypointer"} -> "AnyPointer" [] r.sim = "anyvalue" -> "AnyValue"
+                [] OTHER -> "none"
+LockTwinsBuckets(r) == IF LevelOf(r) = "ExactFlags" THEN 2 ELSE 1
 
 ---------------------------------------------------------------------------
 CONSTANTS Start,     \* initial buffer, in units
